@@ -23,6 +23,11 @@ CHECKS = {
    text="Every interleaving of 2 workers with <=2 preemptions and 3 workers with <=1 (thorough: <=3 / <=2) doing their first write through the real DelayedS3Writer is executed under a controlled scheduler whose scheduling points are every source line of cog/_s3.py and every operation of the fake process lock, distributed lock, shared variable and storage client, in three set-ups (no client + shared object; client + shared object; client + per-worker copies). Each schedule is judged: exactly one initiation, every part/complete under that id, no exception, no deadlock. Failing schedules are replayed twice for determinism. MPUFileSink finalisation is enumerated over part counts 1..4 x sizes {0,1,5,4096} x parts-directory placement (incl. another filesystem) x keep_parts; limit accessors over every subset of limit kwargs.",
    note="distributed.Lock/Variable replaced by sequentially consistent fakes; Variable.get on an unset variable = immediate timeout; finalise runs after all writes (task dependency). Interleavings inside one source line or inside botocore are not explored.",
    design="4/C18", thorough=True),
+ "C19": dict(level="model_checking", engine="E1+E2",
+   technique="explicit-state BFS over CRS-cache histories on the real module-level caches (differential + weak-reference liveness invariants) + exhaustive pair/triple enumeration of value families",
+   text="(a) For each value type a family of near-identical values (one field changed; several construction routes per value) is enumerated over ALL ordered pairs and ALL ordered triples: equality must match the construction (same value <=> equal), be reflexive/symmetric/transitive, agree with !=, equal hashable objects must hash equally, unequal objects must not share a dask token, pickle/copy/deepcopy clones must be equal with equal token and hash. (b) Breadth-first search over histories of {construct CRS by spec, drop handle, gc.collect, transformer request} replayed from cleared real caches, from initial and non-initial start states, deduplicated on a canonical cache state; in every state: str/hash/token/epsg of each new CRS equal those observed with empty caches, each transformer maps a probe exactly like a fresh pyproj transformer, and every identity-keyed transformer entry refers to objects that are still alive.",
+   note="Bounds: families of 5-40 members per type; histories: init + 3 (quick) / 4 (thorough) events, <=3 live handles, 11 specs over 3 EPSG codes. Two genuine defects are recorded as known findings (F19-1 history-dependent CRS string, F19-2 hash of equal CRSs with different spelling).",
+   design="4/C19", thorough=True),
 }
 NOT_YET = "check not built yet in this session (design in DESIGN.md section 4); no claim made"
 
